@@ -25,6 +25,16 @@ NEEDS = {
  "C08c_async_ignore_not_installed": "a SIGINT/SIGQUIT trap that was set and reset (entry with default action), then an asynchronous list without job control",
  "C11c_stale_pending_kept": "a signal caught by an internal handler while untrapped, then `trap 'cmd' SIG` before the pending flag is consumed",
  "C13c_bang_reset_on_empty_joblist": "`cmd & wait $!` (job list becomes empty) followed by another expansion of $!",
+ "C05c_quoted_leading_period": "a directory-scanned component whose leading period is quoted or follows a quoted region (`'.'*`, `\"d/\".*`)",
+ "C06c_global_alias_recursion": "a global alias whose replacement mentions itself (directly or through another global alias), used on a later line; reachable through the parser API only",
+ "C07c_umask_symbolic_clauses": "`umask -S` listing (three = clauses) evaluated in a shell whose mask differs in the user or group class",
+ "C10c_errexit_exemption_stops_at_subshell": "errexit on, a subshell/substitution/pipeline element started inside an exempt context, and a failing non-final command inside it",
+ "C12c_remove_current_fallback": "removing the current job when >= 2 jobs remain, no other suspended job, and the old previous job has the lowest index",
+ "C14c_pipe_reader_on_fd1": "a pipeline of >= 3 commands started while descriptor 1 is closed (the previous pipe's reading end lands on fd 1)",
+ "C15c_batch_run_until_stalled": "run_until_stalled with two queued tasks where the earlier one wakes the later one again (or re-enters the executor) during the same run",
+ "C17c_negation_lost_before_alias": "`!` followed by a word that is an alias name",
+ "C18c_line_chunk_splits_utf8": "a command line longer than 4096 bytes, read through a file descriptor, with a multi-byte character across the 4096-byte boundary",
+ "C19c_append_after_truncate": "an O_APPEND descriptor kept open, written, the file truncated through another open, then written again",
 }
 for d in sorted(glob.glob('/verif/seeded/*/')):
     name = os.path.basename(d.rstrip('/'))
